@@ -28,12 +28,15 @@ META = {
         "list bodies of dense integer attributes reproduce the payload bytes), float_tree_roundtrip (under `Lawful O`, "
         "the stated laws of CPython's %.5e/%.9g/%.17g/repr/float()/struct: every branch of print_float emits text that "
         "the lexer reads as one FLOAT_LIT or a hexadecimal INTEGER_LIT and that parses back to the bit-identical value, "
-        "incl. NaN payloads, infinities and -0.0).  Tied to /repo by (a) a recursive generator over all builtin "
+        "incl. NaN payloads, infinities and -0.0), floatdata_roundtrip (under `Lawful O` and `LawfulData O`: for EVERY "
+        "binary64 the text of the helper attribute builtin.FloatData — hexadecimal bit pattern for NaN/±inf, else repr "
+        "with `.0` spliced in front of a bare exponent — is one number token and parse_parameter returns the "
+        "bit-identical value).  Tied to /repo by (a) a recursive generator over all builtin "
         "attribute/type constructors with boundary numerics: str(attr) -> Parser.parse_attribute/parse_type in a "
         "fresh Context -> bit-exact structural fingerprint compare (the direct oracle), (b) line-by-line "
         "correspondence of the Lean model with Printer/MLIRLexer/Parser/IntegerType/struct on generated strings, "
-        "bytes, literal texts, integers, number texts, dense payloads and float decision-tree observations, "
-        "(c) sampling of every law of `Lawful` against CPython (>= 10^4 values per main float format in quick)."
+        "bytes, literal texts, integers, number texts, dense payloads and float / FloatData decision-tree observations, "
+        "(c) sampling of every law of `Lawful` and `LawfulData` against CPython (>= 10^4 values per main float format in quick)."
     ),
     "technique": "Lean 4 proofs over a hand-written literal-layer model with CPython float formatting as a lawful oracle + generated bit-exact round-trip oracle on the real printer/parser + differential correspondence",
     "level_note": (
@@ -48,7 +51,7 @@ META = {
         "of in-range values (rejected or non-canonical by construction); memory spaces that are themselves layout "
         "attributes; location attributes nested inside FusedLoc metadata; UnregisteredAttr/DenseResourceAttr "
         "(need context state). Known: BytesAttr with a UTF-8-decodable payload shares its syntax with StringAttr; "
-        "FloatData (helper attribute) prints inf/nan as bare words; dense payloads of the reduced-precision float "
+        "dense payloads of the reduced-precision float "
         "types (f8*/f6*/f4*/tf32) holding a non-canonical NaN encoding (sign/payload) are printed as the canonical NaN."
     ),
     "rule": (
@@ -405,6 +408,10 @@ def boundary_recipes(tier: str) -> list[list]:
             out.append(["densearr", ["f", t], [V.d2h(x)]])
             out.append(["dense", "tensor", [2], ["f", t], [V.d2h(x), V.d2h(1.0)]])
             out.append(["dense", "tensor", [2], ["f", t], [V.d2h(x)]])
+    for u in V.BOUNDARY_F64:  # FloatData holds a bare binary64: every NaN payload/sign, infinities, zeros
+        out.append(["floatdata", f"{u:016x}"])
+    for x in (1e16, 1e22, -1e-7, 5e-324, 1.5e300, 123456789.0, 0.1):
+        out.append(["floatdata", V.d2h(x)])
     for t in V.FLOAT_TYPES_SMALL + ["f8E8M0FNU"]:
         for x in (0.0, -0.0, 1.0, 0.5, 1.5, 2.0, math.inf, -math.inf, math.nan, 1 / 3, 1e-5, 448.0):
             out.append(["float", t, V.d2h(x)])
@@ -589,6 +596,17 @@ def float_obs_line(tyname: str, x: float) -> tuple[str, str]:
     return line, buf.getvalue()
 
 
+def floatdata_obs_line(x: float) -> tuple[str, str]:
+    """model input line + what FloatData.print_parameter prints between the angle brackets"""
+    from xdsl.dialects.builtin import FloatData
+
+    text = str(FloatData(x))
+    pre, suf = "#builtin.float_data<", ">"
+    assert text.startswith(pre) and text.endswith(suf), text
+    line = f"floatdata {int(not math.isfinite(x))} {hb(struct.pack('<d', x))} {ht(f'{x}')}"
+    return line, text[len(pre):-len(suf)]
+
+
 def run_correspondence(ctx: core.Ctx, n: int) -> None:
     from xdsl.printer import Printer
     import io
@@ -693,6 +711,17 @@ def run_correspondence(ctx: core.Ctx, n: int) -> None:
             size = t.compile_time_size
             add(f"tobytes {size} {int(text, 16)}", hb(int(text, 16).to_bytes(size, 'little')), {"tobytes": text})
     ctx.count("corr.float_lines", len(lines))
+    # -- FloatData (bare Python float): print_parameter decision + what the lexer makes of the text
+    n0 = len(lines)
+    fd_values = [V.h2d(f"{u:016x}") for u in V.BOUNDARY_F64] + [V.float_value(rng, "f64") for _ in range(n // 2)]
+    for x in fd_values:
+        line, text = floatdata_obs_line(x)
+        add(line, text, {"floatdata": V.d2h(x)})
+        num = text[1:] if text.startswith("-") else text
+        add(f"lexnum {ht(num)}", impl_lexnum(num), {"number_text": num})
+        if text.startswith("0x"):
+            add(f"tobytes 8 {int(text, 16)}", hb(int(text, 16).to_bytes(8, 'little')), {"tobytes": text})
+    ctx.count("corr.floatdata_lines", len(lines) - n0)
     model = ctx.model("literals", lines)
     ctx.ev(len(lines))
     for i, (a, b) in enumerate(zip(impl, model)):
@@ -764,8 +793,27 @@ def check_float_laws(ctx: core.Ctx, n_per_type: int) -> None:
                 if "." not in txt:
                     bits = int.from_bytes(pk, "little")
                     law("hex_fits (bit pattern < 2^(8*size))", bits.to_bytes(size, "little") == pk, tyname, x)
+    # laws of `LawfulData` (floatdata_roundtrip): bare binary64 values, every bit pattern class
+    for i in range(n_per_type + len(V.BOUNDARY_F64)):
+        x = V.h2d(f"{V.BOUNDARY_F64[i]:016x}") if i < len(V.BOUNDARY_F64) else (
+            V.h2d(f"{rng.getrandbits(64):016x}") if i % 2 else V.float_value(rng, "f64"))
+        ctx.count("laws.floatdata")
+        pk = struct.pack("<d", x)
+        law("data.size_f64 (a binary64 packs to 8 bytes)", len(pk) == 8 and V.float_type("f64").compile_time_size == 8, "f64", x)
+        law("data.bits_roundtrip (struct unpack∘pack is bit-identical, NaN payloads included)",
+            struct.pack("<d", struct.unpack("<d", pk)[0]) == pk and V.float_type("f64").pack((x,)) == pk, "f64", x)
+        if not math.isfinite(x):
+            continue
+        txt = f"{x}"
+        if "." not in txt:
+            mant, _, exp = txt.partition("e")
+            txt = f"{mant}.0e{exp}"
+        law("data.fd_shape (repr, with .0 spliced in, is one FLOAT_LIT)", FLOATLIT.match(txt.lstrip("-")) is not None, "f64", x, txt)
+        law("data.fd_exact (float() reads it back bit-identically)", struct.pack("<d", float(txt)) == pk, "f64", x, txt)
+        body = txt[1:] if txt.startswith("-") else txt
+        law("data.parse_neg", struct.pack("<d", float(txt)) == struct.pack("<d", -float(body) if txt.startswith("-") else float(body)), "f64", x, txt)
     for name, b in broken.items():
-        ctx.mismatch(f"correspondence:C06/float-oracle-law:{name}", b, "CPython violates the law", "law assumed by XdslProofs.C06.Lawful")
+        ctx.mismatch(f"correspondence:C06/float-oracle-law:{name}", b, "CPython violates the law", "law assumed by XdslProofs.C06.Lawful / LawfulData")
     ctx.extra["float_oracle_laws_sampled_per_main_type"] = n_per_type
 
 
